@@ -28,6 +28,7 @@ import pony.flask as pony_flask
 from pony.orm.integration import bottle_plugin
 
 warnings.simplefilter('ignore', PonyRuntimeWarning)
+warnings.filterwarnings('ignore', category=RuntimeWarning, message='coroutine .* was never awaited')
 
 
 # ---------------------------------------------------------------------------------------------------------------------
@@ -90,7 +91,16 @@ def table_of_classes(names):
 
 TX = [x for x in UNIVERSE if issubclass(CLASS[x], TransactionError)]
 SHOULD_RETRY = [x for x in UNIVERSE if getattr(CLASS[x], 'should_retry', False)]
-REDIRECT = None     # computed from the real is_allowed_exception in run()
+REDIRECT = None     # what the real is_allowed_exception answers on the universe (evidence only)
+RESP = [x for x in UNIVERSE if issubclass(CLASS[x], bottle_stub.HTTPResponse)]     # isinstance(e, HTTPResponse)
+ERR = [x for x in UNIVERSE if issubclass(CLASS[x], bottle_stub.HTTPError)]         # isinstance(e, HTTPError)
+
+
+class Suspend(object):
+    """awaitable that suspends the coroutine once (what a Future does)"""
+    def __init__(self, v): self.v = v
+    def __await__(self):
+        yield self.v
 
 
 def pred_result(table, name):
@@ -233,6 +243,17 @@ class Real(object):
                     if fin == 'yield': yield i
                     elif fin == 'ret': return
                     else: raise make_exc(fin['raise'])
+            async def co():
+                for i, st in enumerate(steps):
+                    for w in st.get('writes', []): self.W(tag=w)
+                    if st.get('commit'): commit()
+                    for w in st.get('late', []): self.W(tag=w)
+                    fin = st.get('fin', 'yield')
+                    if fin == 'yield': await Suspend(i)
+                    elif fin == 'ret': return
+                    else: raise make_exc(fin['raise'])
+            if p.get('async'):
+                g = co; feature('branch:iter-coroutine')
             try: wrapped = self.opts(p['o'])(g)
             except TypeError as e:
                 if canon_exc(e) == 'genBadOption': raise
@@ -243,7 +264,7 @@ class Real(object):
                 r = st.get('resume', 'next')
                 feature('branch:gen-resume-%s' % (r if isinstance(r, str) else 'throw'))
                 try:
-                    if r == 'next': next(it)
+                    if r == 'next': it.send(None)
                     elif r == 'close':
                         it.close()
                         raise GeneratorExit()          # what left new_gen_func (Python swallows it in close())
@@ -331,12 +352,13 @@ SID = itertools.count(1)
 
 def mk_pred(rng, field, form, classes=None, table=None):
     """returns the option fragment for one predicate; form in default/list/tuple/callable"""
+    flag = 'allowed_callable' if field == 'allowed' else 'retry_callable'      # which branch of the code asks the predicate
     if form == 'default':
         t = {'yes': list(TX), 'raises': []} if field == 'retryable' else {'yes': [], 'raises': []}
-        return {field: t, '_%s_form' % field: 'default'}
+        return {field: t, '_%s_form' % field: 'default', flag: False}
     if form in ('list', 'tuple'):
-        return {field: table_of_classes(classes), '_%s_form' % field: form, '_%s_classes' % field: list(classes)}
-    return {field: table, '_%s_form' % field: 'callable'}
+        return {field: table_of_classes(classes), '_%s_form' % field: form, '_%s_classes' % field: list(classes), flag: False}
+    return {field: table, '_%s_form' % field: 'callable', flag: True}
 
 
 def rand_table(rng, allow_raise=True):
@@ -403,7 +425,7 @@ def rand_prog(rng, depth, in_session=False, base=[0]):
     elif k == 'call':
         ps.append({'k': 'call', 'o': rand_opts(rng), 'bodies': [rand_prog(rng, depth - 1, True) for _ in range(rng.choice([1, 2, 3]))]})
     elif k == 'bottle':
-        ps.append({'k': 'bottle', 'redirect': REDIRECT, 'bodies': [rand_prog(rng, depth - 1, True) for _ in range(rng.choice([1, 2]))]})
+        ps.append({'k': 'bottle', 'resp': RESP, 'err': ERR, 'bodies': [rand_prog(rng, depth - 1, True) for _ in range(rng.choice([1, 2]))]})
     elif k == 'try':
         ps.append({'k': 'try', 'p': rand_prog(rng, depth - 1, in_session), 'catch': [x for x in UNIVERSE if rng.random() < 0.5],
                    'h': rand_prog(rng, depth - 1, in_session)})
@@ -433,7 +455,7 @@ def rand_iter(rng, base):
         st['resume'] = 'next' if i == 0 or rr < 0.85 else ('close' if rr < 0.92 else {'throw': rng.choice(RAISABLE)})
         steps.append(st)
         if st['fin'] != 'yield': break
-    return {'k': 'iter', 'o': o, 'steps': steps}
+    return {'k': 'iter', 'o': o, 'steps': steps, 'async': rng.random() < 0.4}
 
 
 def rand_env(rng, p_fail):
@@ -475,7 +497,7 @@ def scripted(kind, o, depth, inner_kinds, outcomes, commit_fail=()):
         spec_bodies.append({'writes': ws if out == 'ret' else ws[:2], 'out': out})
     env = {'should_retry': SHOULD_RETRY, 'tx': TX, 'commit_fail': list(commit_fail)}
     if kind == 'decorator': prog = {'k': 'call', 'o': o, 'bodies': bodies}
-    elif kind == 'bottle': prog = {'k': 'bottle', 'redirect': REDIRECT, 'bodies': bodies}
+    elif kind == 'bottle': prog = {'k': 'bottle', 'resp': RESP, 'err': ERR, 'bodies': bodies}
     elif kind == 'cm': prog = {'k': 'with', 'o': o, 'p': bodies[0]}
     elif kind == 'flask': prog = {'k': 'flask', 'hooked': True, 'view': bodies[0]}
     else:
@@ -563,7 +585,7 @@ def oracle(ctx, case, obs):
     if fout == 'ret' and not faulty and new_rows != own:
         ctx.violation('the body finished normally but its writes %s were not committed (found %s)' % (own, new_rows), inp,
                       observed=obs, key=key0 + ':no-commit-after-success')
-    if kind in ('decorator', 'cm') and fout != 'ret' and allowed(fout) and not retryable(fout) and not faulty \
+    if kind in ('decorator', 'cm', 'bottle') and fout != 'ret' and allowed(fout) and not retryable(fout) and not faulty \
             and pred_result(spec['retryable'], fout)[0] != 'raises' and new_rows != own:
         ctx.violation('the body raised the allowed exception %s but its writes were not committed' % fout, inp, observed=obs,
                       key=key0 + ':no-commit-after-allowed')
@@ -681,16 +703,17 @@ def gen_grid(ctx, rng):
     ends = ['yield', 'ret', {'raise': 'u0'}, {'raise': 'u3'}]
     resumes = ['next', 'close', {'throw': 'u1'}, {'throw': 'u5'}]
     faults = [[], ['u100'], [None, 'u100'], ['u100', 'u100']]
-    combos = list(itertools.product([False, True], [[], [3]], ends, resumes, [False, True], ends, faults))
+    combos = list(itertools.product([False, True], [[], [3]], ['yield', 'yield'] + ends, resumes, [False, True], ends, faults))
     if not ctx.thorough: combos = rng.sample(combos, 160)
     for mc1, late1, fin1, res2, mc2, fin2, cf in combos:
         o = {'sid': next(SID)}
         o.update(mk_pred(rng, 'allowed', rng.choice(['default', 'list']), classes=['U0']))
         o.update(mk_pred(rng, 'retryable', 'default'))
-        steps = [{'writes': [1, 2], 'commit': mc1, 'late': late1, 'fin': fin1, 'resume': 'next'},
+        w1 = [1, 2] if (mc1 or rng.random() < 0.3) else []
+        steps = [{'writes': w1, 'commit': mc1, 'late': late1 if rng.random() < 0.4 else [], 'fin': fin1, 'resume': 'next'},
                  {'writes': [11], 'commit': mc2, 'late': [], 'fin': fin2, 'resume': res2},
                  {'writes': [21], 'commit': False, 'late': [], 'fin': 'ret', 'resume': 'next'}]
-        prog = {'k': 'iter', 'o': o, 'steps': steps}
+        prog = {'k': 'iter', 'o': o, 'steps': steps, 'async': rng.random() < 0.5}
         env = {'should_retry': SHOULD_RETRY, 'tx': TX, 'commit_fail': cf}
         cases.append({'prog': prog, 'env': env})
         if rng.random() < 0.15:
